@@ -17,7 +17,10 @@ from vfpy.world import World
 ID = "C06"
 LEVEL = "exploration"
 RULE = ("a case is one generated edit history with hostile argument classes (~50-70% of calls raise; a bad "
-        "element is placed at a random position of every multi-element argument); every raising call is judged by a "
+        "element is placed at a random position of every multi-element argument; multi-pair replace_all_uses_with "
+        "calls are assembled from pairs that really rewire something with the rejected pair at every position; every "
+        "size / index / slice-bound parameter is also drawn from the far ends of its range: negative sizes, indices "
+        "far outside [-len, len) up to beyond a machine word); every raising call is judged by a "
         "before/after snapshot diff over the whole universe; non-trivial = >=3 raising calls judged on a world with "
         ">=2 graphs or with a multi-element argument; distinct = hash of the multiset of raising call kinds + exception types")
 ASSUMPTIONS = [
@@ -46,19 +49,74 @@ def _raised_by_backing_tensor(exc) -> bool:
     return obj is not None and not isinstance(obj, ir.Value) and hasattr(obj, "tobytes")
 
 
-def mechanism_site(w, op, res) -> str:
+def _owner(v):
+    """The graph that lists v as input / output / initializer (public accessors only), else None."""
+    if v.is_graph_input() or v.is_graph_output() or v.is_initializer():
+        return v.graph
+    return None
+
+
+def rauw_facts(w, op):
+    """Facts about the pairs of a convenience.replace_all_uses_with call, read from the state BEFORE the
+    call through public accessors (used for signature labels and coverage counters, never for a verdict).
+    first_bad: position of the first pair that is inadmissible on its own merits in that state - its value
+    is a graph output and either graph outputs are not to be replaced or its replacement is listed by a
+    different graph.  effective_before: how many pairs before it have something to rewire."""
+    try:
+        values, repls, rgo = w.Vs(op[1]), w.Vs(op[2]), op[3]
+    except Exception:  # noqa: BLE001 - empty pool: the call is skipped
+        return None
+    if len(values) != len(repls):
+        return {"first_bad": None, "effective_before": 0, "pairs": 0}
+    first_bad, effective = None, 0
+    for k, (v, r) in enumerate(zip(values, repls)):
+        if v.is_graph_output() and (not rgo or (_owner(r) is not None and _owner(r) is not v.graph)):
+            first_bad = k
+            break
+        if v is not r and (v.uses() or v.is_graph_output()):
+            effective += 1
+    return {"first_bad": first_bad, "effective_before": effective, "pairs": len(values)}
+
+
+def extreme_argument(w, op) -> bool:
+    """Does the call carry a size / index / slice bound from the far end of its range: a negative size,
+    or an index at least 5 places outside [-len, len) (which includes every far / beyond-word value)?"""
+    k = op[0]
+    try:
+        if k in ("rsz_in", "rsz_out"):
+            return op[2] < 0
+        if k == "node":
+            return op[3] is not None and op[3] < 0
+        if k == "rin":
+            n = len(w.N(op[1]).inputs)
+            return not (-n - 5 <= op[2] < n + 5)
+        if k in ("io_insert", "io_set", "io_del", "io_pop", "io_setslice", "io_delslice", "io_setslice3", "io_delslice3"):
+            cont = w.C(op[1])
+            n = len(cont.inputs if op[2] == "inputs" else cont.outputs)
+            bounds = op[3:5] if "slice" in k else op[3:4]
+            return any(isinstance(i, int) and not (-n - 5 <= i < n + 5) for i in bounds)
+    except Exception:  # noqa: BLE001 - empty pool
+        pass
+    return False
+
+
+def mechanism_site(w, op, res, facts=None) -> str:
     """Third component of a C06 signature.  For plain calls: the raising function (localisation that is
     stable across seeds).  For the composite helpers whose partial application is a recorded finding the
     label is derived from the *arguments* instead, so that it does not depend on private function names:
-    replace_nodes_and_values -> 'composite'; replace_all_uses_with(replace_graph_outputs=True) over
-    outputs of several graphs -> 'cross-graph-outputs'; a rename rejected by the value's backing tensor
-    -> 'rejected-by-backing-tensor'."""
+    replace_nodes_and_values -> 'composite'; a rename rejected by the value's backing tensor
+    -> 'rejected-by-backing-tensor'; convenience.replace_all_uses_with(replace_graph_outputs=True): when a
+    pair was inadmissible on its own merits in the state BEFORE the call (facts, see rauw_facts)
+    -> 'pair-inadmissible-on-entry' (nothing an earlier pair did is needed to reject it); otherwise, over
+    outputs of several graphs -> 'cross-graph-outputs' (the rejection depends on what earlier pairs did)."""
     k = op[0]
     if k == "c_rnv":
         return "composite"
     if k in ("c_rename", "v_name", "in_set", "in_add", "in_reg") and _raised_by_backing_tensor(res.exc):
         return "rejected-by-backing-tensor"
     if k == "c_rauw" and op[3]:
+        if facts is not None and facts.get("first_bad") is not None:
+            return "pair-inadmissible-on-entry"
         try:
             vals = w.Vs(op[1]) + w.Vs(op[2])
             graphs = {id(v.graph) for v in vals if v.graph is not None and v.is_graph_output()}
@@ -77,11 +135,17 @@ class SnapshotMonitor:
         self.ctx = ctx
         self.only_kind = only_kind  # while shrinking: the witness must end in the same kind of call
         self.precondition_broken = False
+        self.facts = None   # rauw_facts of the call about to be made
+        self.extreme = False
 
     def before(self, w, op):
+        self.facts, self.extreme = None, False
         if self.precondition_broken or invariants.check_world(w):
             self.precondition_broken = True
             return None
+        if op[0] == "c_rauw":
+            self.facts = rauw_facts(w, op)
+        self.extreme = extreme_argument(w, op)
         return snapshot.snapshot(w)
 
     def after(self, w, op, res, pre):
@@ -91,10 +155,19 @@ class SnapshotMonitor:
         if self.ctx is not None:
             self.ctx.count("raising_calls_judged")
             self.ctx.count("judged:" + op[0])
+            if self.extreme:
+                self.ctx.count("judged:far_size_or_index")
+                self.ctx.count("judged:far_size_or_index:" + op[0])
+            f = self.facts
+            if f is not None and f["first_bad"] is not None and f["first_bad"] >= 1 and f["effective_before"] >= 1:
+                # the deciding situation for a multi-pair call: a rejected pair after pairs that rewire something
+                self.ctx.count("judged:c_rauw(rejected pair after effective pairs)")
+                if op[3]:
+                    self.ctx.count("judged:c_rauw(rejected pair after effective pairs,replace_graph_outputs)")
         d = snapshot.diff(pre, post)
         if not d:
             return None
-        kind = f"{histories.op_kind(op, res)}:{type(res.exc).__name__}@{mechanism_site(w, op, res)}"
+        kind = f"{histories.op_kind(op, res)}:{type(res.exc).__name__}@{mechanism_site(w, op, res, self.facts)}"
         if self.only_kind is not None and kind != self.only_kind:
             return None
         out = []
@@ -110,9 +183,44 @@ def plan(tier: str) -> dict:
         "cases": 2400 if quick else 140000,
         "shards": 16,
         "budget_s": 35 if quick else 540,
-        "floors": {"raising_calls_judged": 6000 if quick else 200000, "judged:sort(nested,cyclic)": 300 if quick else 20000},
+        "floors": {"raising_calls_judged": 6000 if quick else 200000, "judged:sort(nested,cyclic)": 300 if quick else 20000,
+                   "judged:far_size_or_index": 300 if quick else 10000, "judged:rsz_in": 20 if quick else 600,
+                   "judged:c_rauw(rejected pair after effective pairs,replace_graph_outputs)": 15 if quick else 500},
         "min_nontrivial": 200,
     }
+
+
+def staged_graphs(rng, w):
+    """Opening moves of a history (ordinary operation descriptors, yielded one at a time against the live
+    world): two or three small graphs, each with an input, sometimes an initializer, a node or two and an
+    output - so that edits ACROSS graphs (a value one graph lists offered to another) are reachable from
+    the first generated call on, not only in the rare histories whose random Graph() calls succeed twice."""
+    def idx(v):
+        return next(i for i, o in enumerate(w.values) if o is v)
+
+    for gi in range(rng.randint(2, 3)):
+        base = len(w.values)
+        yield ["val", f"s{gi}_x", None, 1]
+        with_init = rng.random() < 0.6
+        if with_init:
+            yield ["val", f"s{gi}_w", 0, 1]
+        if len(w.values) != base + 1 + with_init:
+            return
+        nbase = len(w.nodes)
+        yield ["node", "Add", [base, base + with_init], 1, None, None, f"s{gi}_n0", None]
+        if len(w.nodes) != nbase + 1:
+            return
+        out = idx(w.nodes[nbase].outputs[0])
+        nodes = [nbase]
+        if rng.random() < 0.6:
+            yield ["node", "Relu", [out], 1, None, None, f"s{gi}_n1", None]
+            if len(w.nodes) != nbase + 2:
+                return
+            nodes.append(nbase + 1)
+            outs = [idx(w.nodes[nbase + 1].outputs[0])] + ([out] if rng.random() < 0.5 else [])
+        else:
+            outs = [out]
+        yield ["graph", [base], outs, nodes, [base + 1] if with_init else [], f"s{gi}"]
 
 
 def run_case(ctx, case):
@@ -124,14 +232,23 @@ def run_case(ctx, case):
     # the C01 known finding (a graph input/initializer given a producer) is avoided, otherwise
     # its cascades (re-registering an initializer that has a producer fails) would be filed here
     avoid = {"owned_node_outputs"}
-    gen = Gen(rng, w, hostile, avoid=avoid, collaborators=(case % 3 == 0))
+    gen = Gen(rng, w, hostile, avoid=avoid, collaborators=(case % 3 == 0), extremes=rng.choice([0.0, 0.1, 0.25]),
+              targeted_rauw=0.6, weights={"c_rauw": 3, "rsz_in": 2.5})
     mon = SnapshotMonitor(ctx)
     ops, results = [], []
     raised_kinds = []
     multi = False
     failure = None
-    for _ in range(length):
-        op = gen.op()
+    stage = staged_graphs(rng, w) if case % 2 == 0 else iter(())
+    staged = 0
+    while True:
+        op = next(stage, None)
+        if op is not None:
+            staged += 1
+        elif len(ops) - staged < length:
+            op = gen.op()
+        else:
+            break
         pre = mon.before(w, op)
         res = w.apply(op)
         ops.append(op)
@@ -150,6 +267,8 @@ def run_case(ctx, case):
             failure = found
             break
     ctx.evaluation(key=sorted(raised_kinds), nontrivial=(len(raised_kinds) >= 3 and (len(w.graphs) >= 2 or multi)))
+    if len(w.graphs) >= 2:
+        ctx.count("histories_ending_with_2+_graphs")
     if case % 97 == 0:
         ctx.sample({"case": case, "hostile": hostile, "history": histories.describe(ops, results)[:40]})
     if failure:
